@@ -11,6 +11,7 @@
 import Pdt.Model.Sql
 import Pdt.Props.C15
 import Pdt.Props.C01Frag
+import Pdt.Props.C01Ord
 
 namespace Pdt.C01
 open Pdt Pdt.Spec Pdt.Sql
@@ -100,5 +101,14 @@ theorem rowlevel_single_select {ast : Ast} {sc : List Uid} (h : Frag ast sc) (db
       r.query.limit = none := by
   obtain ⟨r, n', hc, inv⟩ := frag_refines h db needed
   exact ⟨r, n', hc, inv.hg, inv.hh, inv.ho, inv.hl⟩
+
+/-- The same with order and limit: a row-level pipeline, then one `arrange` (any keys with any
+    descending / nulls_first / nulls_last markers), then `select` / `rename` / element-wise `mutate`, then an
+    optional `slice_head(n, offset)` and further shape verbs: the SELECT with ORDER BY … LIMIT … OFFSET
+    evaluates to the frame of the reference semantics with the rows *in the same sequence* (both sides
+    apply the same stable sort to the same key table; proved in `C01Ord.lean`). -/
+theorem refinement_ordered {ast : Ast} {sc : List Uid} {lim : Bool} (h : OFrag ast sc lim) (db : DB) (needed : Needed) :
+    ∃ r n', compile ast needed = .ok (r, n') ∧ Sql.run db r = (Spec.run db ast).frame :=
+  sql_refines_spec_ordered h db needed
 
 end Pdt.C01
